@@ -434,7 +434,11 @@ impl Run {
                 self.inject(arg);
                 self.faulted = true;
                 self.wait_all();
-                if !wait_hits(&self.p("fail.after_shutdown"), before + 1, WATCHDOG) { self.note("reader-not-failed"); }
+                // async client with a stalled writer: when the fault also closes the connection the
+                // failing write's guard may stop the response loop before it runs fail_all_pending
+                let guard_race = self.prefix == "aclient" && self.stalled;
+                if guard_race { let _ = wait_hits(&self.p("fail.after_shutdown"), before + 1, Duration::from_millis(300)); }
+                else if !wait_hits(&self.p("fail.after_shutdown"), before + 1, WATCHDOG) { self.note("reader-not-failed"); }
                 self.srv.close(false);
             }
             "P" => {
@@ -578,11 +582,250 @@ fn main() {
 }
 
 // ---------------------------------------------------------------- generation
-fn gen_cases(_seed: u64, _thorough: bool) -> Vec<String> {
-    let mut cases: Vec<String> = Vec::new();
-    for kind in ["tcp", "atcp", "ws"] {
-        cases.push(format!("kind={kind} sub=0 n=2 script=S:0;R:0;S:1;R:1"));
-        cases.push(format!("kind={kind} sub=0 n=3 script=S:0;S:1;F:close;S:2"));
+const TCP_FAULTS: &[&str] = &["close", "rst", "magic", "lenmis", "ovf", "big", "trunch", "trunch47", "truncq0", "truncq", "truncb0", "truncb", "truncb1", "truncrst"];
+const WS_ONLY_FAULTS: &[&str] = &["wsclose", "text", "wsrsv", "wsmask", "wsop"];
+
+fn faults_of(kind: &str) -> Vec<&'static str> {
+    let mut v: Vec<&'static str> = TCP_FAULTS.to_vec();
+    if kind == "ws" { v.extend_from_slice(WS_ONLY_FAULTS); }
+    v
+}
+
+/// the generator's own bookkeeping of which scripts are scenarios (the driver
+/// re-checks every script with the extracted `c06_valid` and reports a
+/// DRIVER-ERROR for one that is not)
+#[derive(Clone, Copy, PartialEq)]
+enum St { None, Flight(bool), Fin(bool) }
+struct Gen { kind: &'static str, sub: bool, st: Vec<St>, phase: u8, stalled: bool, unread: bool, script: Vec<String> }
+impl Gen {
+    fn new(kind: &'static str, sub: bool) -> Self { Gen { kind, sub, st: vec![], phase: 0, stalled: false, unread: false, script: vec![] } }
+    fn fresh(&mut self) -> usize { self.st.push(St::None); self.st.len() - 1 }
+    fn reads(&self) -> bool { !self.stalled && !self.unread }
+    fn live(&self) -> bool { self.phase == 0 }
+    fn push(&mut self, e: String) { self.script.push(e); }
+    fn start(&mut self, op: &str) -> Option<usize> {
+        // op in S T U X XA XB XC W
+        if self.live() && !self.reads() { return None; }
+        if matches!(op, "XA" | "XB" | "XC" | "W") && !self.live() { return None; }
+        if op == "XA" && self.kind != "tcp" { return None; }
+        let c = self.fresh();
+        self.st[c] = if self.live() {
+            match op { "S" | "T" => St::Flight(true), "U" | "W" => St::Flight(false), _ => St::Fin(true) }
+        } else { St::Fin(false) };
+        if self.live() { if op == "U" { self.unread = true; } if op == "W" { self.stalled = true; } }
+        self.push(format!("{op}:{c}"));
+        Some(c)
     }
+    fn flights(&self, known_only: bool) -> Vec<usize> {
+        (0..self.st.len()).filter(|c| match self.st[*c] { St::Flight(k) => k || !known_only, _ => false }).collect()
+    }
+    fn respond(&mut self, c: usize) -> bool {
+        if !self.live() { return false; }
+        match self.st[c] { St::Flight(true) => { self.st[c] = St::Fin(true); } St::Fin(true) => {} _ => return false }
+        self.push(format!("R:{c}")); true
+    }
+    fn cancel(&mut self, op: &str, c: usize) -> bool {
+        if self.kind == "tcp" { return false; }
+        match (op, self.st[c], self.phase) {
+            ("C", St::Flight(k), 0) if !self.stalled => { self.st[c] = St::Fin(k); }
+            ("C", St::Flight(k), 1) if !self.stalled => { self.st[c] = St::Fin(k); }
+            ("CB" | "CC", St::Flight(true), 0) => { self.st[c] = St::Fin(true); }
+            _ => return false,
+        }
+        self.push(format!("{op}:{c}")); true
+    }
+    fn simple(&mut self, op: &str) -> bool {
+        match op {
+            "V" => { if !self.live() { return false; } }
+            "N" => { if !(self.live() && self.kind == "ws" && self.sub) { return false; } }
+            "Q" => {}
+            _ => return false,
+        }
+        self.push(op.to_string()); true
+    }
+    fn probe(&mut self, c: usize) -> bool {
+        if !(self.kind == "atcp" && self.live() && self.reads()) { return false; }
+        if self.st[c] != St::Fin(true) { return false; }
+        self.push(format!("G:{c}")); true
+    }
+    fn fault(&mut self, op: &str, kind: &str) -> bool {
+        match (op, self.phase) {
+            ("F", 0) => { self.phase = 2; }
+            ("P", 0) => { self.phase = 1; }
+            ("Z", 1) => { self.phase = 2; self.push("Z".into()); for s in self.st.iter_mut() { if let St::Flight(k) = *s { *s = St::Fin(k); } } return true; }
+            _ => return false,
+        }
+        if op == "F" { for s in self.st.iter_mut() { if let St::Flight(k) = *s { *s = St::Fin(k); } } }
+        self.push(format!("{op}:{kind}")); true
+    }
+    fn line(&mut self) -> String {
+        if self.phase == 1 { self.fault("Z", ""); }
+        format!("kind={} sub={} n={} script={}", self.kind, self.sub as u8, self.st.len(), if self.script.is_empty() { "-".into() } else { self.script.join(";") })
+    }
+}
+
+fn gen_cases(seed: u64, thorough: bool) -> Vec<String> {
+    let mut cases: Vec<String> = Vec::new();
+    let kinds: [&'static str; 3] = ["tcp", "atcp", "ws"];
+    let flights: &[usize] = if thorough { &[0, 1, 2, 3, 4, 8, 16] } else { &[0, 1, 2, 3] };
+
+    // A. one fault after k of n requests were read, n calls in flight, with and without
+    //    per-call timeouts, then two later calls
+    for kind in kinds {
+        for (fi, fk) in faults_of(kind).into_iter().enumerate() {
+            for &n in flights {
+                let ks: Vec<usize> = if thorough { let mut v = vec![n, 0, n / 2, n.saturating_sub(1)]; v.sort(); v.dedup(); v } else { let mut v = vec![n, if (fi + n) % 2 == 0 { 0 } else { n / 2 }]; v.sort(); v.dedup(); v };
+                for k in ks {
+                    for mix in 0..(if thorough { 3 } else { 2 }) {
+                        if !thorough && mix == 1 && (fi + n + k) % 2 == 1 { continue; }
+                        let sub = kind == "ws" && (fi + n + mix) % 2 == 0;
+                        let mut g = Gen::new(kind, sub);
+                        if sub { g.simple("N"); g.simple("Q"); }
+                        for i in 0..n {
+                            let op = if i >= k { "U" } else { match mix { 0 => "S", 1 => "T", _ => if i % 2 == 0 { "S" } else { "T" } } };
+                            g.start(op);
+                        }
+                        g.fault("F", fk);
+                        if sub { g.simple("Q"); }
+                        g.start("S"); g.start(if mix == 0 { "X" } else { "T" });
+                        cases.push(g.line());
+                    }
+                }
+            }
+        }
+    }
+
+    // B. the same with the reader held at its probe point before the drain: the
+    //    subscriber, a later call, a cancellation, then the drain and one more later call
+    for kind in kinds {
+        let fs: Vec<&str> = if thorough { faults_of(kind) } else { let mut v = vec!["close", "magic", "truncb"]; if kind == "ws" { v.push("wsclose"); v.push("text"); } v };
+        for fk in fs {
+            for &n in flights {
+                if n > 4 { continue; }
+                for variant in 0..3 {
+                    if variant == 2 && (kind == "tcp" || n == 0) { continue; }
+                    let sub = kind == "ws";
+                    let mut g = Gen::new(kind, sub);
+                    for i in 0..n { g.start(if i % 2 == 0 { "S" } else { "T" }); }
+                    g.fault("P", fk);
+                    if sub { g.simple("Q"); }
+                    if variant >= 1 { g.start("S"); }
+                    if variant == 2 { g.cancel("C", 0); }
+                    if variant == 1 { g.start("X"); }
+                    g.fault("Z", "");
+                    g.start("T");
+                    if sub { g.simple("Q"); }
+                    cases.push(g.line());
+                }
+            }
+        }
+    }
+
+    // C. lives of two (quick) or three (thorough) calls: answered, expired (plain and the three
+    //    forced races), cancelled (plain and the two forced races), left pending; late responses
+    //    for every finished call; an unknown id; residue probes; then a fresh call that must
+    //    still work; optionally a fault at the end
+    let lives: &[&str] = &["ok", "X", "XA", "XB", "XC", "C", "CB", "CC", "pend", "T"];
+    let depth = if thorough { 3 } else { 2 };
+    for kind in kinds {
+        let total = lives.len().pow(depth as u32);
+        for idx in 0..total {
+            let mut k = idx; let mut ls = Vec::new();
+            for _ in 0..depth { ls.push(lives[k % lives.len()]); k /= lives.len(); }
+            if ls.iter().any(|l| (*l == "XA" && kind != "tcp") || (matches!(*l, "C" | "CB" | "CC") && kind == "tcp")) { continue; }
+            // quick: at most two expiries per case (each costs its timeout)
+            if !thorough && ls.iter().filter(|l| l.starts_with('X')).count() > 1 && idx % 3 != 0 { continue; }
+            for order in 0..2 {
+                let sub = kind == "ws" && idx % 2 == 0;
+                let mut g = Gen::new(kind, sub);
+                // order 0: one life after the other; order 1: every plain call is in flight while
+                // the others expire / are cancelled, and is answered afterwards
+                let mut started: Vec<(usize, &str)> = Vec::new();
+                for l in &ls {
+                    match *l {
+                        "ok" | "pend" | "C" | "CB" | "CC" => { let c = g.start("S").unwrap(); started.push((c, l)); if order == 0 { finish_life(&mut g, c, l); } }
+                        "T" => { let c = g.start("T").unwrap(); started.push((c, "ok")); if order == 0 { finish_life(&mut g, c, "ok"); } }
+                        x => { let c = g.start(x).unwrap(); started.push((c, "done")); }
+                    }
+                }
+                if order == 1 { for (c, l) in started.iter().rev() { finish_life(&mut g, *c, l); } }
+                if sub { g.simple("N"); }
+                g.simple("V");
+                // late responses for everything that has returned, then residue probes
+                for (c, l) in &started { if *l != "pend" { g.respond(*c); } }
+                for (c, l) in &started { if *l != "pend" { g.probe(*c); } }
+                let c = g.start("S").unwrap(); g.respond(c);
+                if idx % 4 == order { let fk = faults_of(kind)[idx % faults_of(kind).len()]; g.fault("F", fk); g.start("S"); }
+                if sub { g.simple("Q"); }
+                cases.push(g.line());
+            }
+        }
+    }
+
+    // D. the stalled writer (design D8): call B blocked inside the write of an 8 MiB request
+    //    towards a peer with a 4 KiB receive buffer that does not read, call A in flight, then
+    //    the fault: both must fail promptly, and so must a later call
+    for kind in kinds {
+        let fs: Vec<&str> = if thorough { faults_of(kind) } else { let mut v = vec!["magic", "close", "lenmis"]; if kind == "ws" { v.push("text"); } v };
+        for fk in fs {
+            for a in 0..(if thorough { 3 } else { 2 }) {
+                for op in ["F", "P"] {
+                    if !thorough && op == "P" && fk != "magic" { continue; }
+                    // holding the reader at its probe point needs the reader to get there: on the async
+                    // client only the faults that leave the connection open guarantee that (see `F`)
+                    if op == "P" && kind == "atcp" && !matches!(fk, "magic" | "lenmis" | "ovf" | "big") { continue; }
+                    let mut g = Gen::new(kind, kind == "ws" && a == 1);
+                    for i in 0..a { g.start(if i == 0 { "S" } else { "T" }); }
+                    g.start("W");
+                    g.fault(op, fk);
+                    if g.sub { g.simple("Q"); }
+                    g.start("S");
+                    if op == "P" { g.fault("Z", ""); g.start("T"); }
+                    cases.push(g.line());
+                }
+            }
+        }
+    }
+
+    // E. random scenarios
+    let mut rng = Rng::new(seed);
+    let nrand = if thorough { 1500 } else { 150 };
+    for _ in 0..nrand {
+        let kind = kinds[rng.below(3) as usize];
+        let sub = kind == "ws" && rng.chance(1, 2);
+        let mut g = Gen::new(kind, sub);
+        let len = rng.range(2, if thorough { 24 } else { 12 });
+        let mut expiries = 0;
+        for _ in 0..len {
+            if g.st.len() >= 16 { break; }
+            let r = rng.below(100);
+            let fl = g.flights(true);
+            let any: Vec<usize> = (0..g.st.len()).collect();
+            match r {
+                0..=24 => { g.start(if rng.chance(1, 2) { "S" } else { "T" }); }
+                25..=29 => { if g.live() { g.start("U"); } }
+                30..=39 => { if expiries < 3 { let op = *rng.pick(&["X", "X", "XA", "XB", "XC"]); if g.start(op).is_some() { expiries += 1; } } }
+                40..=59 => { if !any.is_empty() { let c = *rng.pick(&any); g.respond(c); } }
+                60..=69 => { if !fl.is_empty() { let c = *rng.pick(&fl); let op = *rng.pick(&["C", "CB", "CC"]); g.cancel(op, c); } }
+                70..=74 => { g.simple("V"); }
+                75..=79 => { g.simple("N"); }
+                80..=84 => { g.simple("Q"); }
+                85..=89 => { if !any.is_empty() { let c = *rng.pick(&any); g.probe(c); } }
+                90..=93 => { let fk = *rng.pick(&faults_of(kind)); g.fault("F", fk); }
+                94..=96 => { let fk = *rng.pick(&faults_of(kind)); if g.fault("P", fk) { if rng.chance(1, 2) { g.start("S"); } if rng.chance(1, 3) { let f2 = g.flights(false); if !f2.is_empty() { let c = *rng.pick(&f2); g.cancel("C", c); } } g.fault("Z", ""); } }
+                _ => { if rng.chance(1, 4) && g.live() && g.reads() { g.start("W"); let fk = *rng.pick(&faults_of(kind)); g.fault("F", fk); } }
+            }
+        }
+        cases.push(g.line());
+    }
+
     cases.into_iter().enumerate().map(|(i, c)| format!("i={i} {c}")).collect()
+}
+
+fn finish_life(g: &mut Gen, c: usize, life: &str) {
+    match life {
+        "ok" => { g.respond(c); }
+        "C" | "CB" | "CC" => { g.cancel(life, c); }
+        _ => {}
+    }
 }
